@@ -57,6 +57,24 @@ fn unicode_cases() -> impl Strategy<Value = Case> {
     })
 }
 
+/// strings holding line breaks (written as escapes) that reach declaration values, selectors and at-rule
+/// preludes unquoted, in lists, calls and before !important; no custom properties
+fn newline_cases() -> impl Strategy<Value = Case> {
+    let nl = prop_oneof![Just("unquote(\"x\\a y\")"), Just("#{\"x\\a y\"}"), Just("unquote(\"x\\d\\a y\")"), Just("string.unquote(\"\\a\")"), Just("#{\"a\\c b\"}"), Just("\"q\\a r\""), Just("unquote(\"x\\a\") + y"), Just("string.insert(abc, unquote(\"\\a\"), 2)")];
+    let ctx = prop_oneof![
+        Just("b: 1px NL;"), Just("b: NL, c;"), Just("b: NL !important;"), Just("b: f(NL);"), Just("b: NL;"), Just("b: (NL c) d;"), Just("b: [NL];"), Just("b: a NL c / 2;"), Just("b: url(NL);"), Just("b: calc(1px + NL);"), Just("b: NL NL;"), Just("font: { family: a NL; }"), Just("@media screen { b: c NL; }"), Just("&:hover { b: c, NL; }"), Just("b: if(true, NL e, f);"), Just("@include m(NL);"), Just("@each $i in a NL { b: $i z; }"),
+    ];
+    (proptest::collection::vec((ctx, nl), 1..4), any::<bool>()).prop_map(|(v, nest)| {
+        let mut body = String::new();
+        for (c, n) in v {
+            body.push_str(&c.replace("NL", n));
+            body.push('\n');
+        }
+        let text = if nest { format!("@use \"sass:string\";\n@mixin m($x) {{ mx: 1 $x; }}\n.o {{ .i {{\n{body}}} }}\n") } else { format!("@use \"sass:string\";\n@mixin m($x) {{ mx: 1 $x; }}\n.o {{\n{body}}}\n") };
+        Case { text, css: false }
+    })
+}
+
 pub fn style_phases(tier: Tier, scale: u64) -> Vec<Phase<Case>> {
     let n = |q: u64, t: u64| tier.pick(q, t) * scale / 10;
     let corpus: Vec<Case> = corpus_live_str().iter().flat_map(|t| [Case { text: t.clone(), css: false }, Case { text: t.clone(), css: true }]).collect();
@@ -67,6 +85,7 @@ pub fn style_phases(tier: Tier, scale: u64) -> Vec<Phase<Case>> {
     vec![
         Phase::random("safe-grammar", prog::sheet(Cfg { wild: false, safe: true, ..Cfg::default() }).prop_map(|text| Case { text, css: false }), n(30_000, 1_500_000)),
         Phase::random("unicode", unicode_cases(), n(6_000, 200_000)),
+        Phase::random("newline-strings", newline_cases(), n(3_000, 100_000)),
         Phase::random("tame-grammar", prog::sheet(Cfg { wild: false, ..Cfg::default() }).prop_map(|text| Case { text, css: false }), n(10_000, 500_000)),
         // rsass's own expanded output fed back in as plain CSS (multi-line comments, @charset, custom properties)
         Phase::random(
@@ -146,7 +165,15 @@ pub fn raw_brackets_possible(src: &str) -> bool {
                     return false;
                 }
                 match c {
-                    b'\\' => return true,
+                    b'\\' => {
+                        // an escape that can denote a quote, bracket, brace or backslash (\" \' \\ \22 \27 \5b \5c \5d \7b \7d)
+                        if matches!(self.b.get(self.i + 1), Some(b'{') | Some(b'}') | Some(b'[') | Some(b']') | Some(b'7') | Some(b'5') | Some(b'"') | Some(b'\'') | Some(b'2') | Some(b'\\') | Some(b'\n') | Some(b'a') | Some(b'A') | Some(b'd') | Some(b'D') | Some(b'c') | Some(b'C') | None) {
+                            // (\a \d \c: a line break that reaches the output raw ends a string token early)
+                            return true;
+                        }
+                        self.i += 2;
+                        continue;
+                    }
                     b'#' if self.b.get(self.i + 1) == Some(&b'{') => {
                         self.i += 2;
                         if self.code(true) {
